@@ -138,7 +138,7 @@ def _printer_fixes(src):
     for node in ast.walk(tree):
         if isinstance(node, ast.ClassDef) and node.name == 'Cpt':
             for f in node.body:
-                if isinstance(f, ast.FunctionDef) and f.name in ('_arg_format', '_netmake1'):
+                if isinstance(f, ast.FunctionDef) and f.name in ('_arg_format', '_netmake1', '_netsubs'):
                     funcs[f.name] = f
     fix_e = fix_a = fix_b = False
     notes = []
@@ -177,7 +177,22 @@ def _printer_fixes(src):
                     notes.append('_netmake1: unrecognised elision test: ' + test[:60])
         if not seen:
             notes.append('_netmake1: elision of the name default not found')
-    return (fix_e, fix_a, fix_b), notes
+    # does Cpt._netsubs print through _netmake1 (fix 8b2a96c) or with its own loop?
+    deleg = False
+    ns = funcs.get('_netsubs')
+    if ns is None:
+        notes.append('_netsubs not found')
+    else:
+        rets = [n for n in ast.walk(ns) if isinstance(n, ast.Return) and n.value is not None]
+        calls = [ast.unparse(r.value) for r in rets]
+        if len(calls) == 1 and calls[0].replace(' ', '').replace('\n', '') == \
+                'self._netmake1(self.namespace+self.relname,nodes=nodes,args=args)':
+            deleg = True
+        elif calls == ['string']:
+            deleg = False
+        else:
+            notes.append('_netsubs: unrecognised shape: ' + '; '.join(calls)[:80])
+    return (fix_e, fix_a, fix_b, deleg), notes
 
 
 def lchar(c):
@@ -236,7 +251,8 @@ def generate(repo):
         except Exception:
             unparsed.append('rule-line:' + line[:40])
     msrc = open(os.path.join(repo, 'lcapy', 'mnacpts.py')).read()
-    fixes, fnotes = _printer_fixes(msrc)
+    fixes4, fnotes = _printer_fixes(msrc)
+    fixes, netsubs_deleg = fixes4[:3], fixes4[3]
     osrc = open(os.path.join(repo, 'lcapy', 'opts.py')).read()
     oc, onotes = _opts_consts(osrc)
     aliases, anotes = _suffix_aliases(vsrc)
@@ -285,11 +301,14 @@ def generate(repo):
     L.append('/-- mnacpts.Cpt._arg_format / _netmake1: which repairs (C06-e, C06-a, C06-b) the source contains -/')
     L.append('def printerFix : Bool × Bool × Bool := (%s, %s, %s)' % tuple('true' if x else 'false' for x in fixes))
     L.append('')
+    L.append('/-- mnacpts.Cpt._netsubs: does it print through _netmake1 (else: its own legacy loop) -/')
+    L.append('def netsubsDelegates : Bool := %s' % ('true' if netsubs_deleg else 'false'))
+    L.append('')
     L.append('end Lcapy.Gen.Grammar')
     text = '\n'.join(L) + '\n'
     info = {'rules': len(rules), 'params': len(params), 'suffixes': len(suff), 'unparsed': unparsed,
             'rule_classes': [r[0] for r in rules], 'printer_fixes': {'C06-e': fixes[0], 'C06-a': fixes[1], 'C06-b': fixes[2]},
-            'printer_notes': fnotes, 'opts_constants': oc, 'suffix_aliases': aliases, 'opts_notes': onotes + anotes}
+            'netsubs_delegates': netsubs_deleg, 'printer_notes': fnotes, 'opts_constants': oc, 'suffix_aliases': aliases, 'opts_notes': onotes + anotes}
     return text, info
 
 
